@@ -81,10 +81,33 @@ func r08_1(c *Ctx, rule string) {
 			continue
 		}
 		uses := 0
-		for _, ref := range eng.Referrers(connParam) {
+		// uses of the parameter, followed into transparent helpers it is handed to (a constructor split off)
+		var refs []ssa.Instruction
+		var follow func(v ssa.Value, d int)
+		follow = func(v ssa.Value, d int) {
+			for _, ref := range eng.Referrers(v) {
+				if call, isCall := ref.(*ssa.Call); isCall && d < 4 {
+					if callee := call.Call.StaticCallee(); callee != nil && c.P.Transparent(callee) && !call.Call.IsInvoke() {
+						handed := false
+						for i, a := range call.Call.Args {
+							if a == v && i < len(callee.Params) {
+								follow(callee.Params[i], d+1)
+								handed = true
+							}
+						}
+						if handed {
+							continue
+						}
+					}
+				}
+				refs = append(refs, ref)
+			}
+		}
+		follow(connParam, 0)
+		for _, ref := range refs {
 			uses++
 			ok := false
-			if s, isStore := ref.(*ssa.Store); isStore && s.Val == ssa.Value(connParam) {
+			if s, isStore := ref.(*ssa.Store); isStore && eng.Resolve(s.Val) == ssa.Value(connParam) {
 				if fa, isFA := s.Addr.(*ssa.FieldAddr); isFA && eng.FieldOwnerName(fa.X.Type(), fa.Field) == "fsutil.syncStream.Stream" {
 					ok = true
 				}
@@ -284,8 +307,7 @@ func r08_3(c *Ctx, rule string) {
 		c.R.Missing(rule, "package fsutil")
 		return
 	}
-	g, _ := pk.Members["rand"].(*ssa.Global)
-	gm, _ := pk.Members["randmu"].(*ssa.Global)
+	g, gm := c.P.Global("fsutil", "rand"), c.P.Global("fsutil", "randmu")
 	if g == nil || gm == nil {
 		c.R.Missing(rule, "package variables rand / randmu")
 		return
@@ -408,7 +430,7 @@ func r08_9(c *Ctx, rule string) {
 			var names []string
 			for id := range la.Held(in) {
 				if v, isVar := id.(*types.Var); isVar {
-					if v.Name() == "mu" && c.name(fn) == "fsutil.(*syncStream).SendMsg" {
+					if eng.CanonField("fsutil.syncStream", v.Name()) == "mu" && c.name(fn) == "fsutil.(*syncStream).SendMsg" {
 						continue // the send mutex of the stream wrapper
 					}
 					names = append(names, v.Name())
